@@ -262,6 +262,12 @@ def exhaustive_small(row):
         for b in tmpl:
             for c in (dict(op="copy"), dict(op="reset_parameters", args=[])):
                 seqs.append([dict(a), dict(b), dict(c)])
+    # both kinds of copy after every single change, and after a fixed flag moved away from its class default (either direction)
+    flip = dict(op="set_fixed", kw=[(k, not row["fx"][k])], pos=[], dangling=False)
+    for a in tmpl + [flip]:
+        for c in (dict(op="copy"), dict(op="deepcopy")):
+            seqs.append([dict(a), dict(c)])
+            seqs.append([dict(flip), dict(a), dict(c)])
     return seqs
 
 
@@ -280,6 +286,21 @@ def shard_text(cases):
 
 def jsonable(ops):
     return json.loads(json.dumps(ops, default=str))
+
+
+def copy_cases(row):
+    """for EVERY class (containers included) and every key: a fixed flag moved away from its class default, or a value moved inside
+    its limits, followed by each kind of copy — the copy holds the state of the original"""
+    seqs = []
+    for k in row["keys"]:
+        flip = dict(op="set_fixed", kw=[(k, not row["fx"][k])], pos=[], dangling=False)
+        lo, hi, v = row["lo"][k], row["hi"][k], row["vals"][k]
+        inside = v * 1.5 if (math.isfinite(v) and lo <= v * 1.5 <= hi) else v
+        move = dict(op="set_values", kw=[(k, inside)], pos=[], dangling=False)
+        for c in (dict(op="copy"), dict(op="deepcopy")):
+            seqs.append([dict(flip), dict(c)])
+            seqs.append([dict(move), dict(flip), dict(c)])
+    return seqs
 
 
 def build_cases(tier, seed):
@@ -308,6 +329,10 @@ def build_cases(tier, seed):
     n_ex = 0
     for r in ex_rows:
         for ops in exhaustive_small(r):
+            cases.append((r, ops))
+            n_ex += 1
+    for r in rows:
+        for ops in copy_cases(r):
             cases.append((r, ops))
             n_ex += 1
     for i in range(n_random):
